@@ -5,9 +5,16 @@ data-structure-invariant argument (unbounded length, any mix of forms)."""
 from .geom import RegionTranslate, RegionScale, RegionRotate90, MeshTranslate, MeshScale, MeshRotate90
 from .shared import RegionInit, MeshInit
 
-CONTRACTS = [RegionTranslate(), RegionScale(), RegionRotate90(), MeshTranslate(), MeshScale(), MeshRotate90()]
+from .c12 import FieldRotate90
+from .fieldc import FieldInit
+from . import c03 as _c03
+
+# Field.rotate90 is the only transformation defined on fields: its contract carries Inv(Field) (array shape (*n, nvdim),
+# Boolean validity of shape n), in-place returns self and equals the copy result, refusal leaves the object unmodified
+CONTRACTS = [RegionTranslate(), RegionScale(), RegionRotate90(), MeshTranslate(), MeshScale(), MeshRotate90(), FieldRotate90()]
 _BY_NAME = {c.name: c for c in CONTRACTS}
-_USE = [RegionInit(), MeshInit(), RegionTranslate(), RegionScale(), RegionRotate90()]
+_USE = [RegionInit(), MeshInit(), RegionTranslate(), RegionScale(), RegionRotate90(), FieldInit()]
+setup_engine = _c03.setup_engine
 
 
 def contract(name):
@@ -27,5 +34,5 @@ MUTANTS = {
     'translate_pmax_minus': {'module': 'region', 'contract': 'Region.translate', 'config': {'ndim': 2, 'inplace': True},
                              'old': 'self._pmax = np.add(self.pmax, vector)', 'new': 'self._pmax = np.add(self.pmin, vector)'},
     'rotate_sign': {'module': 'region', 'contract': 'Region.rotate90', 'config': {'ndim': 2, 'inplace': False, 'ax1': 0, 'ax2': 1},
-                    'old': '[np.cos(k * np.pi / 2), -np.sin(k * np.pi / 2)],', 'new': '[np.cos(k * np.pi / 2), np.sin(k * np.pi / 2)],'},
+                    'old': '[np.cos(theta), -np.sin(theta)],', 'new': '[np.cos(theta), np.sin(theta)],'},
 }
